@@ -19,6 +19,8 @@ type UniImpl struct {
 	// obtained before an incremental load was still the registered one afterwards, and the reported
 	// input list.
 	LoadHistory func(prog *Program, initial []string, steps [][]string) (snap *USnap, objectsStable bool, inputs []string, err error)
+	// LoadHistoryLookups: the same with hand lookups (Universe.Type of (package, name)) made right before incremental step i
+	LoadHistoryLookups func(prog *Program, initial []string, steps [][]string, lookups [][][2]string) (snap *USnap, objectsStable bool, inputs []string, err error)
 }
 
 func progLines(variant string, prog *Program, facts []string, requested []string) []string {
@@ -31,9 +33,31 @@ func progLines(variant string, prog *Program, facts []string, requested []string
 	return ls
 }
 
-func progFromLines(lines []string) (*Program, []string, []string) {
+type loadScript struct {
+	initial []string
+	steps   [][]string
+	lookups [][][2]string // lookups[i]: made right before steps[i]
+}
+
+func (ls *loadScript) requested() []string {
+	seen := map[string]bool{}
+	var out []string
+	for _, l := range append([][]string{ls.initial}, ls.steps...) {
+		for _, p := range l {
+			if !seen[p] {
+				seen[p] = true
+				out = append(out, p)
+			}
+		}
+	}
+	return out
+}
+
+func progFromLines(lines []string) (*Program, []string, *loadScript) {
 	prog := &Program{Module: "example.com/m"}
-	var facts, requested []string
+	var facts []string
+	script := &loadScript{}
+	var pending [][2]string
 	for _, l := range lines {
 		f := Fields(l)
 		switch f[1] {
@@ -41,13 +65,20 @@ func progFromLines(lines []string) (*Program, []string, []string) {
 			prog.V2 = f[2] == "v2"
 		case "src":
 			prog.Pkgs = append(prog.Pkgs, &ProgPkg{Path: Unhex(f[2]), Name: Unhex(f[3]), File: Unhex(f[4]), Imports: UnhexList(f[5]), Source: Unhex(f[6])})
+			prog.Module = ModuleOfPath(prog.Pkgs[0].Path)
 		case "node", "pkg":
 			facts = append(facts, l)
 		case "load":
-			requested = UnhexList(f[2])
+			script.initial = UnhexList(f[2])
+		case "lookup":
+			pending = append(pending, [2]string{Unhex(f[3]), Unhex(f[4])})
+		case "loadto":
+			script.steps = append(script.steps, UnhexList(f[2]))
+			script.lookups = append(script.lookups, pending)
+			pending = nil
 		}
 	}
-	return prog, facts, requested
+	return prog, facts, script
 }
 
 // UniverseProperty: prop is C01, C06 or C20; they share programs, loaders and the model, and differ in
@@ -66,7 +97,8 @@ func UniverseProperty(prop string, impl UniImpl) Property {
 		if len(lines) == 1 && Fields(lines[0])[1] == "lookupchecks" {
 			return outs, impl.LookupChecks()
 		}
-		prog, facts, requested := progFromLines(lines)
+		prog, facts, script := progFromLines(lines)
+		requested := script.requested()
 		chk, err := prog.Check()
 		if err != nil {
 			return outs, []Failure{{"generator-ill-typed", "the generated program does not type-check (harness): " + err.Error()}}
@@ -75,15 +107,23 @@ func UniverseProperty(prop string, impl UniImpl) Property {
 			fails = append(fails, Failure{"facts-stale", "the facts in the lines differ from go/types' view now (harness)"})
 		}
 		var snap *USnap
-		if !impl.V2 && len(requested) < len(prog.Pkgs) && impl.LoadHistory != nil {
+		switch {
+		case len(script.steps) > 0 && impl.LoadHistoryLookups != nil:
+			// an initial load, then hand lookups and incremental loads
+			snap, _, _, err = impl.LoadHistoryLookups(prog, script.initial, script.steps, script.lookups)
+		case !impl.V2 && len(requested) < len(prog.Pkgs) && impl.LoadHistory != nil:
 			// v1 with dependency-only packages: the GOPATH-mode loader (AddFileForTest marks every package requested)
 			snap, _, _, err = impl.LoadHistory(prog, requested, nil)
-		} else {
+		default:
 			snap, err = impl.Load(prog, requested)
 		}
-		li, di := len(lines)-2, len(lines)-1
+		di := len(lines) - 1
 		if err != nil {
-			outs[li] = "fail"
+			for i, l := range lines {
+				if op := Fields(l)[1]; op == "load" || op == "loadto" {
+					outs[i] = "fail"
+				}
+			}
 			outs[di] = ""
 			fails = append(fails, Failure{"load-fails", fmt.Sprintf("loading a well-typed program failed: %v", err)})
 			return outs, fails
@@ -152,6 +192,33 @@ func UniverseProperty(prop string, impl UniImpl) Property {
 					if strings.Contains(src, kw) {
 						feats = append(feats, "has:"+kw)
 					}
+				}
+				if len(requested) >= 2 && impl.LoadHistoryLookups != nil && r.Chance(1, 4) {
+					// the importers first, then – after hand lookups of types that are not loaded yet – the rest, one by one
+					ls := []string{Line("uni", "reset", variant)}
+					for _, p := range prog.Pkgs {
+						ls = append(ls, Line("uni", "src", Hex(p.Path), Hex(p.Name), Hex(p.File), HexList(p.Imports), Hex(p.Source)))
+					}
+					ls = append(ls, chk.FactLines(prog)...)
+					last := requested[len(requested)-1]
+					ls = append(ls, Line("uni", "load", HexList([]string{last})))
+					for i := len(requested) - 2; i >= 0; i-- {
+						if r.Bool() {
+							sc := chk.Pkgs[requested[i]].Scope()
+							for _, nm := range sc.Names() {
+								if tn, ok := sc.Lookup(nm).(*gotypes.TypeName); ok && !tn.IsAlias() && r.Bool() {
+									if named, ok := tn.Type().(*gotypes.Named); ok && named.TypeParams().Len() == 0 {
+										ls = append(ls, Line("uni", "lookup", "type", Hex(requested[i]), Hex(nm)))
+										feats = append(feats, "lookup-before-load")
+									}
+								}
+							}
+						}
+						ls = append(ls, Line("uni", "loadto", HexList([]string{requested[i]})))
+					}
+					ls = append(ls, Line("uni", "dump"))
+					batch = append(batch, PCase{ls, Meta{Nontrivial: true, Features: append(feats, "incremental-loads")}})
+					continue
 				}
 				batch = append(batch, PCase{progLines(variant, prog, chk.FactLines(prog), requested), Meta{Nontrivial: true, Features: feats}})
 				if len(batch) == 32 {
@@ -282,6 +349,7 @@ func LoadingProperty(impl UniImpl) Property {
 			switch f[1] {
 			case "src":
 				prog.Pkgs = append(prog.Pkgs, &ProgPkg{Path: Unhex(f[2]), Name: Unhex(f[3]), File: Unhex(f[4]), Imports: UnhexList(f[5]), Source: Unhex(f[6])})
+				prog.Module = ModuleOfPath(prog.Pkgs[0].Path)
 			case "load":
 				initial = UnhexList(f[2])
 				loadIdx = append(loadIdx, i)
@@ -430,7 +498,7 @@ func LoadingProperty(impl UniImpl) Property {
 					bad := &Program{Module: prog.Module, V2: prog.V2, Pkgs: append([]*ProgPkg(nil), prog.Pkgs...)}
 					var ls2 []string
 					ls2 = append(ls2, Line("uni", "reset", variant))
-					badReq := "example.com/m/doesnotexist"
+					badReq := prog.Module + "/doesnotexist"
 					feat := "missing"
 					var badSteps [][]string
 					badInitial := append([]string(nil), initial...)
@@ -438,18 +506,18 @@ func LoadingProperty(impl UniImpl) Property {
 					case 0:
 						badInitial = append(badInitial, badReq)
 					case 1: // does not parse, requested with the others
-						bp := &ProgPkg{Path: "example.com/m/zbroken", Name: "zbroken", File: "types.go", Source: "package zbroken\n\ntype T struct {\n"}
+						bp := &ProgPkg{Path: prog.Module + "/zbroken", Name: "zbroken", File: "types.go", Source: "package zbroken\n\ntype T struct {\n"}
 						bad.Pkgs = append(bad.Pkgs, bp)
 						badInitial = append(badInitial, bp.Path)
 						feat = "broken-initial"
 					case 2: // does not parse, requested in a later incremental load
-						bp := &ProgPkg{Path: "example.com/m/zbroken", Name: "zbroken", File: "types.go", Source: "package zbroken\n\ntype T struct{}\n\nfunc (\n\ntype Lost int\n"}
+						bp := &ProgPkg{Path: prog.Module + "/zbroken", Name: "zbroken", File: "types.go", Source: "package zbroken\n\ntype T struct{}\n\nfunc (\n\ntype Lost int\n"}
 						bad.Pkgs = append(bad.Pkgs, bp)
 						badSteps = [][]string{{bp.Path}}
 						feat = "broken-incremental"
 					case 3: // does not parse, first seen as a dependency, requested later
-						bp := &ProgPkg{Path: "example.com/m/zbroken", Name: "zbroken", File: "types.go", Source: "package zbroken\n\ntype T struct{}\n\nfunc (\n\ntype Lost int\n"}
-						ip := &ProgPkg{Path: "example.com/m/zimp", Name: "zimp", File: "types.go", Imports: []string{bp.Path}, Source: "package zimp\n\nimport zbroken \"example.com/m/zbroken\"\n\ntype U struct{ F zbroken.T }\n"}
+						bp := &ProgPkg{Path: prog.Module + "/zbroken", Name: "zbroken", File: "types.go", Source: "package zbroken\n\ntype T struct{}\n\nfunc (\n\ntype Lost int\n"}
+						ip := &ProgPkg{Path: prog.Module + "/zimp", Name: "zimp", File: "types.go", Imports: []string{bp.Path}, Source: "package zimp\n\nimport zbroken \"" + prog.Module + "/zbroken\"\n\ntype U struct{ F zbroken.T }\n"}
 						bad.Pkgs = append(bad.Pkgs, bp, ip)
 						badInitial = append(badInitial, ip.Path)
 						badSteps = [][]string{{bp.Path}}
